@@ -199,5 +199,30 @@ def fnFreeP : P → Bool
   | .pcur ch => fnFree ch
 end
 
+/-! ### vocabulary of the C14 statements -/
+
+/-- a logged call whose user function returned an error -/
+def failedCall (env : Env) : Call → Bool
+  | .ffn name v => (match env.ffn name with | some f => (f v).isNone | none => false)
+  | .afn name vs => (match env.afn name with | some f => (f vs).isNone | none => false)
+
+/-- a chain of filter-function nodes only -/
+def allFfn : List N → Bool
+  | [] => true
+  | .ffn _ _ :: rest => allFfn rest
+  | _ => false
+
+/-- the arguments of the calls of the filter function `name`, in log order -/
+def ffnArgs (name : String) (log : List Call) : List Val :=
+  log.filterMap (fun c => match c with
+    | .ffn n v => if n = name then some v else none
+    | .afn _ _ => none)
+
+/-- does this logged call belong to this function node (same kind, same registered name) -/
+def callOf : N → Call → Bool
+  | .ffn _ name, .ffn name' _ => name == name'
+  | .afn _ name _, .afn name' _ => name == name'
+  | _, _ => false
+
 end Calls
 end JPV
